@@ -173,7 +173,18 @@ def run(ctx) -> list[Inst]:
             if not own_resets:
                 continue
             props = RESET_PROPS.get(c.name, ())
+            from ..registry import SLOT_FIELDS
+            slots = set(SLOT_FIELDS.get(c.name, []))
             for attr, init_val in lit.items():
+                if attr not in slots:
+                    # an attribute the frozen slot tables do not know (e.g. a memo cache that stays
+                    # valid across regeneration): not an obligation, listed as unproven only
+                    insts.append(Inst(RULE, m.short, f'RESET: {c.name}.{attr} (not a slot-table attribute)',
+                                      'unproven' if attr not in rebinds else 'ok',
+                                      msg='attribute unknown to the slot tables; RESET not required',
+                                      file=m.module.relpath, line=own_resets[0].lineno, props=props,
+                                      nontrivial=False))
+                    continue
                 es = [e for e in rebinds.get(attr, []) if e.must]
                 construct = f'RESET: {c.name}.{attr} re-initialised like __init__'
                 if not es:
